@@ -121,9 +121,7 @@ def run_driver(args, timeout=600):
             except Exception:
                 pass
             with open(path, "a") as f:
-                if n == 0:
-                    f.write(json.dumps({"ev": "reset", "ro": 0}) + "\n")
-                    n = 1
+                # (an empty trace gets the panic line alone: every trace specification is stuck on it at line 1)
                 f.write(json.dumps({"ev": "panic", "where": lib, "stderr": (err or "")[:1500]}) + "\n")
             return {"seed": first.get("seed", 0), "row": first.get("row", "?"), "mode": first.get("mode", "?"), "events": n + 1,
                     "comp": {}, "stats": {}, "panicked": True, "ops": 0, "installs": 0, "injected": 0, "fault": first.get("fault", ""),
